@@ -669,11 +669,14 @@ pub fn run(run: &mut Run) -> Result<(), String> {
                 plan.r960 = Some(b(1, 0));
                 plan.dfrc = Some((0..960, 16, b(1, 0)));
                 plan.lines = Some(b(2, 0));
+                // no null moves in these walks: every root is reached by legal play from a start
+                plan.walk = Some((240, 40, 2, 0, b(1, 0)));
             } else {
                 plan.start = Some(b(5, 0));
                 plan.r960 = Some(b(3, 0));
                 plan.dfrc = Some((0..960, 1, b(1, 0)));
                 plan.lines = Some(b(3, 0));
+                plan.walk = Some((960, 80, 1, 0, b(1, 0)));
             }
             run_plan(run, &plan, mon.as_ref(), &NoCand);
             if prop == "C06" {
@@ -731,6 +734,7 @@ pub fn run(run: &mut Run) -> Result<(), String> {
                 plan.clock = Some(b(2, 1));
                 plan.dfrc = Some((0..960, 16, b(0, 0)));
                 plan.lines = Some(b(2, 1));
+                plan.walk = Some((240, 40, 2, 7, b(1, 1)));
                 if prop == "C10" || prop == "C07" {
                     plan.raws.push((Box::new(EpUniverse::before_push(q)), b(1, 0)));
                     plan.raws.push((Box::new(TwoLines { enemy_kings: vec![35] }), b(if prop == "C10" { 1 } else { 0 }, 0)));
@@ -754,6 +758,7 @@ pub fn run(run: &mut Run) -> Result<(), String> {
                 plan.clock = Some(b(3, 2));
                 plan.dfrc = Some((0..960, 1, b(0, 0)));
                 plan.lines = Some(b(3, 2));
+                plan.walk = Some((960, 60, 1, 7, b(1, 1)));
                 plan.raws.push((Box::new(EpUniverse::before_push(q)), b(1, 0)));
                 plan.raws.push((Box::new(CastleBox { max_items: 4 }), b(if prop == "C12" { 1 } else { 0 }, 0)));
                 plan.raws.push((Box::new(TwoLines { enemy_kings: vec![35, 60, 63] }), b(1, 0)));
@@ -780,6 +785,7 @@ pub fn run(run: &mut Run) -> Result<(), String> {
                 plan.start = Some(b(2, 1));
                 plan.mid = Some(b(1, 1));
                 plan.lines = Some(b(1, 1));
+                plan.walk = Some((60, 40, 4, 7, b(0, 0)));
                 plan.raws.push((Box::new(ThreeMen { bk: Some(vec![63, 36]) }), b(0, 0)));
                 plan.raws.push((Box::new(EpUniverse::reduced()), b(0, 0)));
             } else {
@@ -788,6 +794,7 @@ pub fn run(run: &mut Run) -> Result<(), String> {
                 plan.r960 = Some(b(1, 0));
                 plan.lines = Some(b(2, 1));
                 plan.clock = Some(b(1, 0));
+                plan.walk = Some((480, 60, 2, 7, b(0, 0)));
                 plan.raws.push((Box::new(ThreeMen { bk: None }), b(0, 0)));
                 plan.raws.push((Box::new(FourMen { kings: Some(six_king_placements()), with_flags: true }), b(0, 0)));
                 plan.raws.push((Box::new(EpUniverse::full()), b(0, 0)));
